@@ -11,7 +11,7 @@ import (
 // Families lists, per property, the scenario families its check runs.
 var Families = map[string][]string{
 	"C04": {"hosts"},
-	"C05": {"hosts"},
+	"C05": {"hosts", "conc9"},
 	"C06": {"hosts"},
 	"C11": {"dhcp"},
 	"C12": {"dhcp"},
